@@ -96,7 +96,7 @@ def crash_site(stderr):
         stderr = stderr[k.start():]
     for m in re.finditer(r"#\d+ 0x[0-9a-f]+ in (\S.*?) (/\S+?):(\d+)", stderr):
         fn, path = m.group(1), m.group(2)
-        if "/include/rapidjson/" in path or "/verif/sim/" in path:
+        if "/include/rapidjson/" in path or "/verif/sim/" in path or path.startswith("/usr/"):
             continue
         if "/source/" in path or "/include/world_builder/" in path or "/include/" in path:
             fn = re.sub(r"\(.*", "", fn)
